@@ -12,6 +12,7 @@
  */
 #include "ctx.h"
 #include <ctype.h>
+#include "golden_units.h"
 
 enum { RD_DOUBLE, RD_FLOAT, RD_NUMBER, RD_I32, RD_U32, RD_I64, RD_U64 };
 static int rd, r_ok;
@@ -186,6 +187,40 @@ static void check_units(void) {
     }
 }
 
+/* the special mnemonics of SCPI-99 vol.1 7.2.1 / the library's documentation, written out: the exported table is not its own oracle */
+static const struct { const char * name; int tag; } golden_specials[] = {
+    {"MINimum", SCPI_NUM_MIN}, {"MAXimum", SCPI_NUM_MAX}, {"DEFault", SCPI_NUM_DEF}, {"UP", SCPI_NUM_UP}, {"DOWN", SCPI_NUM_DOWN},
+    {"NAN", SCPI_NUM_NAN}, {"INFinity", SCPI_NUM_INF}, {"NINF", SCPI_NUM_NINF}, {"AUTO", SCPI_NUM_AUTO}, {NULL, 0} };
+
+static void check_golden_tables(void) {
+    int g, u;
+    for (g = 0; golden_units[g].name; g++) {
+        char lit[32]; int ll;
+        if (!MC_CASE()) continue;
+        mc_case_tag = "golden-unit"; mc_case_s[0] = (const unsigned char *) golden_units[g].name; mc_case_n[0] = strlen(golden_units[g].name);
+        for (u = 0; scpi_units_def[u].name; u++) if (ieq(scpi_units_def[u].name, golden_units[g].name)) break;
+        if (!scpi_units_def[u].name) { mc_viol("c04/unit-table/row-missing", "unit suffix [%s] is not in the exported unit table", golden_units[g].name); continue; }
+        if (scpi_units_def[u].unit != golden_units[g].unit || scpi_units_def[u].mult != golden_units[g].mult)
+            mc_viol("c04/unit-table/row-differs", "unit table row [%s]: unit %d multiplier %.17g, expected unit %d multiplier %.17g", golden_units[g].name, (int) scpi_units_def[u].unit, scpi_units_def[u].mult, (int) golden_units[g].unit, golden_units[g].mult);
+        ll = sprintf(lit, "3 %s", golden_units[g].name);
+        if (!send(lit, (size_t) ll, RD_NUMBER) || r_n.special || r_n.unit != golden_units[g].unit || r_n.content.value != 3 * golden_units[g].mult)
+            mc_viol("c04/suffix/golden", "literal [%s] read with SCPI_ParamNumber: accepted=%d value %.17g unit %d, expected %.17g unit %d", lit, r_ok, r_n.content.value, (int) r_n.unit, 3 * golden_units[g].mult, (int) golden_units[g].unit);
+        else n_nontrivial++;
+    }
+    for (g = 0; golden_specials[g].name; g++) {
+        int form;
+        for (form = 0; form < 2; form++) {
+            char lit[32]; size_t fl = 0;
+            if (!MC_CASE()) continue;
+            while (golden_specials[g].name[fl] && (form || !islower((unsigned char) golden_specials[g].name[fl]))) { lit[fl] = golden_specials[g].name[fl]; fl++; }
+            mc_case_tag = "golden-special"; mc_case_s[0] = (const unsigned char *) lit; mc_case_n[0] = fl;
+            if (!send(lit, fl, RD_NUMBER) || !r_n.special || r_n.content.tag != golden_specials[g].tag)
+                mc_viol("c04/special-mnemonic/golden", "literal [%s] read with SCPI_ParamNumber: accepted=%d special=%d tag=%d, expected special tag %d", mc_e(lit, fl), r_ok, (int) r_n.special, (int) r_n.content.tag, golden_specials[g].tag);
+            else n_nontrivial++;
+        }
+    }
+}
+
 static void check_specials(void) {
     int s, form;
     for (s = 0; scpi_special_numbers_def[s].name; s++) {
@@ -248,6 +283,7 @@ int main(int argc, char ** argv) {
     }
     fclose(f);
     check_units();
+    check_golden_tables();
     check_specials();
     if (mc_shard == 0) {
         mc_sample("literal [+15.05  E -23] through SCPI_ParamDouble / SCPI_ParamFloat / SCPI_ParamNumber vs exactly rounded 1.505e-22");
